@@ -6,7 +6,7 @@
 patch=$(readlink -f "$1"); prop=$2; tier=${3:-quick}
 wt=$(mktemp -d /tmp/qmut_XXXXXX); rmdir "$wt"
 git -C /repo worktree add -q --detach "$wt" HEAD || exit 2
-cleanup() { git -C /repo worktree remove --force "$wt" 2>/dev/null; rm -rf "$wt"; rm -f /tmp/try_patch_$$.log; }
+cleanup() { git -C /repo worktree remove --force "$wt" 2>/dev/null; rm -rf "$wt"; [ -n "$KEEP_LOG" ] && cp /tmp/try_patch_$$.log $KEEP_LOG; rm -f /tmp/try_patch_$$.log; }
 trap cleanup EXIT
 if ! git -C "$wt" apply --check "$patch" 2>/dev/null; then echo "PATCH-DOES-NOT-APPLY $patch"; exit 3; fi
 git -C "$wt" apply "$patch"
